@@ -110,6 +110,19 @@ func c14(raw json.RawMessage, resp *drv.Response) error {
 			cands = append(cands, drv.RandBelow(rng, bigP))
 		}
 		cands = append(cands, honest)
+		// the response is derived from the witness the prover SUPPLIED - a proof document: 64-bit words incl. the upper half of the range
+		// must arrive unchanged through the repository's readers
+		for _, w := range []*big.Int{pow2(63), new(big.Int).Add(pow2(63), big.NewInt(12345)), new(big.Int).Sub(bigP, one), new(big.Int).Sub(pow2(63), one), honest, new(big.Int).Add(honest, one)} {
+			ld, err := data.LoadWithPowText(inst, 1, w.String(), drv.Tmp())
+			resp.Count(fmt.Sprintf("powdoc/%s/%s", req.Instance, w), false)
+			if err != nil {
+				resp.Violate("c14/witness/document-refused", fmt.Sprintf("%s: a proof document whose pow_witness is the 64-bit word %s is refused: %s", req.Instance, w, firstLine(err)), map[string]any{"witness": w.String()})
+				continue
+			}
+			if got := engine.ToBig(ld.PWPI.Proof.OpeningProof.PowWitness.Limb); got.Cmp(w) != 0 {
+				resp.Violate("c14/witness/not-the-supplied-one", fmt.Sprintf("%s: the document supplies the witness %s, the circuit is given %s: the response is derived from another witness", req.Instance, w, got), map[string]any{"witness": w.String()})
+			}
+		}
 		for _, w := range cands {
 			l := data.Load(inst, 1)
 			short := req.FinalLen > 0 && req.FinalLen < len(l.PWPI.Proof.OpeningProof.FinalPoly.Coeffs)
